@@ -272,7 +272,8 @@ def loop_mapping(qualname, fn_node, ordinal):
             accounted.add(c)
         else:
             open_b.append(b)
-    open_c = [c for c in C if c not in accounted]
+    images = set(nm.values())
+    open_c = [c for c in C if c not in accounted and c not in images]
     if len(open_b) == 1 and len(open_c) == 1:
         nm[open_b[0]] = open_c[0]
     return nm
